@@ -154,7 +154,6 @@ RW2 = [
     dict(rule="R3", re=r"(\w+(?:\.\w+)*)\.statements\.last\(\)", to=r"last_stmt(&\1.statements)", why="slice::last shim"),
     dict(rule="R9", re=r"let len = map\.pairs\.len\(\) \* 2;", to="proof { axiom_pairs_len(&map.pairs); } let len = map.pairs.len() * 2;", why="assumption (listed): a vector of two-expression pairs has fewer than usize::MAX / 2 elements (allocation limit)"),
     dict(rule="R3", re=r"self\.compile_match_expression\(", to="compile_match_expression_shim(self, ", why="compile_match_expression behind the common contract (not yet verified)"),
-    dict(rule="R3", re=r"self\.compile_filter_statement\(", to="compile_filter_statement_shim(self, ", why="compile_filter_statement behind the common contract (not yet verified)"),
     dict(rule="R3", re=r"self\.scopes\[self\.scope_index\]\.scope_depth -= 1;", to=r"let verif_i = self.scope_index; let mut verif_sc = scope_take(&mut self.scopes, verif_i); verif_sc.scope_depth -= 1; scope_put(&mut self.scopes, verif_i, verif_sc);", why="update of a field of a Vec element -> take/modify/put back"),
     dict(rule="R3", re=r"self\.scopes\[self\.scope_index\]\.scope_depth \+= 1;", to=r"let verif_i = self.scope_index; let mut verif_sc = scope_take(&mut self.scopes, verif_i); proof { axiom_depth_bounded(&verif_sc); } verif_sc.scope_depth += 1; scope_put(&mut self.scopes, verif_i, verif_sc);", why="update of a field of a Vec element -> take/modify/put back; assumption (listed): the block depth (one per nested block of the source text) stays below usize::MAX"),
 ]
@@ -268,6 +267,17 @@ COMPILE = [
     m("compile_dot_expression", ret="r", requires=PRE, ensures=GEN, prologue=BCAST, attrs=NODEC),
     m("compile_prop_expression", ret="r", requires=PRE, ensures=GEN + ["r is Ok ==> last_line_is(old(self), final(self), expr.token.line)",
                                                                       "r is Ok ==> sc(final(self)).last_ins.opcode == (if expr.context.access is Get { Opcode::GetProp } else { Opcode::SetProp })"], prologue=BCAST, props=["C13", "C01", "C14"]),
+    dict(kind="fn", file=AS, path="FilterPattern::is_none", ret="r", ensures=["r == (*self is None)"], props=["C01"]),
+    dict(kind="fn", file=AS, path="FilterPattern::is_end", ret="r", ensures=["r == (*self is End)"], props=["C01"]),
+    m("emit_action_stmt", ret="r", requires=PRE, ensures=GEN_S, prologue=BCAST + REFL, attrs=NODEC),
+    m("compile_filter_statement", ret="r", requires=PRE, ensures=GEN_S, prologue=BCAST, attrs=NODEC,
+      rewrites=[dict(rule="R1", re=r"expr\.pattern\.clone\(\)", to="filter_pattern_clone(&expr.pattern)", expect=1, why="derived Clone -> structural-copy shim"),
+                dict(rule="R3", re=r"Rc::new\(CompiledFunction::new\(\s*instructions,\s*num_locals,\s*0,\s*expr\.token\.line,\s*\)\)", to="rc_compiled_fn(instructions, num_locals, 0, expr.token.line)", expect=1, why="constructor shim"),
+                dict(rule="R9g", re=r"(self\.scopes\[self\.scope_index\]\.is_filter = true;)", to=r"\1 let ghost verif_e = *self; proof { lemma_cwf_other_scopes(&verif_en, &verif_e); lemma_gen_refl(&verif_e, &verif_e); }", why="ghost snapshot after the filter scope is set up"),
+                dict(rule="R9g", re=r"(self\.enter_scope\(\);)", to=r"\1 let ghost verif_en = *self;", why="ghost snapshot after enter_scope"),
+                dict(rule="R9g", re=r"(let num_locals = )", to=r"let ghost verif_b = *self; \1", why="ghost snapshot at the end of the filter body"),
+                dict(rule="R9g", re=r"(let instructions = self\.leave_scope\(\);)", to=r"\1 proof { lemma_left(old(self), &verif_e, &verif_b, self); } let ghost verif_l = *self;", why="proof hint: leaving the scope restores the enclosing scope's stream"),
+                dict(rule="R9g", re=r"\n(\s*)Ok\(\(\)\)(\s*\}\s*)$", to=r"\n\1proof { lemma_gen_refl(&verif_l, self); }\n\1Ok(())\2", why="proof hint at the accepting exit")]),
     m("enter_scope", requires=PRE,
       ensures=["cwf(final(self))", "final(self).scope_index == old(self).scope_index + 1", "final(self).scopes@.len() == old(self).scopes@.len() + 1",
                "forall|j: int| 0 <= j < old(self).scopes@.len() ==> final(self).scopes@[j] == old(self).scopes@[j]",
